@@ -82,6 +82,10 @@ def gen_c02(rng, driver):
         srcs.append(p)
     destk = rng.choice(['absent', 'dir-empty', 'dir-populated', 'file' if single_file else 'dir-empty', 'absent'])
     dest = b'/W/DEST'
+    # the destination ARGUMENT may be a symbolic link to the directory (spelled without a trailing slash): cp's rule follows it
+    via_link = destk.startswith('dir') and rng.random() < 0.12
+    if via_link:
+        dest = b'/W/REAL'
     if destk.startswith('dir'):
         sc.d(dest); sc.f(dest + b'/keep'); sc.d(dest + b'/keepdir'); sc.f(dest + b'/keepdir/inner')
         if destk == 'dir-populated':
@@ -111,6 +115,9 @@ def gen_c02(rng, driver):
         sc.opts.append('glob')
         spelled = [s[:-1] + b'?' if (len(s) > 1 and s[-1:] not in (b'/', b'?', b'*') and rng.random() < 0.5) else s for s in spelled]
     dsp = spell_path(rng, b'/W', dest, rng.choice(['plain', 'dot', 'slash', 'abs']))
+    if via_link:
+        sc.l(b'/W/DEST', b'REAL')
+        dsp = spell_path(rng, b'/W', b'/W/DEST', rng.choice(['plain', 'dot', 'abs']))
     if use_tdir:
         sc.tdir = dsp; sc.paths = spelled
     else:
